@@ -569,6 +569,7 @@ func main() {
 	c.Rule += " Every fixed scenario also runs with the Thing kind in the core API group (apiVersion 'v1'/'v2' without a slash; fault enumeration for four of them) and a quarter of the random plans do."
 	c.Rule += " " + "Used resources are also deleted by collection (DeleteAllOf: empty admission request name)."
 	c.Rule += " " + "A Usage composed by an XR that shares kind and name with the using resource; Usages with replayDeletion (the timed replay is intercepted and counted)."
+	c.Rule += " " + "The used resource composed (and re-composed) by the real P&T composer; a Ready Usage replaced by its original manifest (resolved reference cleared)."
 	c.Assumptions = []string{
 		"sim implements optimistic concurrency, no-op writes keeping resourceVersion, finalizers, foreground/background GC (DESIGN.md 2.2); orphan propagation is emulated locally in c19/env.go",
 		"reads are linearizable (the usage controller's cached Usage reads are modelled as fresh: the most favourable case for the code)",
